@@ -172,6 +172,8 @@ type WW struct {
 	Wallets map[string]*WalletSite
 	Tokens  map[string]*TokenRec
 	nTok    int
+	DleqLog  []map[string]any // NUT-12 facts of tokens handed out and proofs stored (C10)
+	dleqSeen map[string]bool
 	Sched   Sched
 	mu      sync.Mutex
 	Reqs    []ReqRec
@@ -218,7 +220,7 @@ type Event struct {
 
 func New(id int, dir string, seed int64) *WW {
 	return &WW{ID: id, Dir: dir, Net: lnmodel.NewNetwork(), Mints: map[string]*MintSite{}, Wallets: map[string]*WalletSite{},
-		Tokens: map[string]*TokenRec{}, secIDs: map[string]string{}, knownR: map[string]string{}, byB: map[string]derived{},
+		dleqSeen: map[string]bool{}, Tokens: map[string]*TokenRec{}, secIDs: map[string]string{}, knownR: map[string]string{}, byB: map[string]derived{},
 		MintedIn: map[string]uint64{}, MeltedOut: map[string]uint64{}, Retired: map[string]uint64{}, melts: map[string]*meltRec{}, DeriveUpTo: 160, Seed: seed,
 		OpTimeout: 60 * time.Second}
 }
@@ -622,6 +624,7 @@ func (ww *WW) emit(ev string, a, r map[string]any) *Event {
 		a = map[string]any{"x": 0}
 	}
 	ww.nEv++
+	ww.dleqAudit(fmt.Sprintf("%s#%d", ev, ww.nEv))
 	e := Event{Tr: ww.ID, I: ww.nEv, Ev: ev, A: a, R: r, Post: ww.Project(), Reqs: ww.scanNew()}
 	ww.Events = append(ww.Events, e)
 	return &ww.Events[len(ww.Events)-1]
